@@ -2,13 +2,13 @@
   C05 — property theorems.  Every `theorem` in this file is a proof obligation of the check.
   Helper lemmas (the `StepRel`/`Both` lifting framework) live in IcingaProofs/C05/Lemmas.lean.
 
-  Three clauses of the property are FALSE of the unchanged code, hence of the faithful model; they are
-  carried as `…_partial` + `…_counterexample` (known findings F-C05a, F-C05b, F-C05c):
+  One clause of the property is FALSE of the code, hence of the faithful model (known finding F-C05c);
+  it is carried as `started_partial` + `started_counterexample`:
 
-    start_once (full statement, false):  ∀ ops d, d ∈ (run (initSt k) ops).dts → d.starts ≤ 1
-    flexible_trigger (full, false):      a flexible downtime triggers only at a non-OK result or on an
-                                         existing problem
     started_when_triggered (full, false): ∀ ops d, d ∈ (run …).dts → d.trigger ≠ 0 → d.starts ≥ 1
+
+  F-C05a (start timer at `now = end_time`) and F-C05b (flexible downtime on a never-checked checkable)
+  are repaired in /repo (eead572, 40d44b0); `start_once` and `flexible_trigger` are full theorems.
 -/
 import IcingaProofs.C05.Rel
 
@@ -37,7 +37,7 @@ theorem depth_eq_count (now : Int) (dts : List Dt) :
     a trigger time that is set (≠ 0) is unchanged. -/
 theorem trigger_write_once (st : St) (op : Op) (d : Dt) (hd : d ∈ st.dts) (ht : d.trigger ≠ 0) :
     ∃ d' ∈ (step st op).1.dts, d'.id = d.id ∧ d'.trigger = d.trigger := by
-  obtain ⟨d', hm, r⟩ := step_succ st op (stepRel_RTrig op.now) d hd
+  obtain ⟨d', hm, r⟩ := step_succ st op (stepRel_RTrig op.now) (allc_trivial _) (opT_trivial st op) d hd
   exact ⟨d', hm, r.1, r.2.2.2.2.2.1 ht⟩
 
 /-- … and therefore over every operation sequence. -/
@@ -57,10 +57,12 @@ theorem trigger_write_once_run (ops : List Op) (st : St) (d : Dt) (hd : d ∈ st
     `add` obeys the same rule. -/
 theorem trigger_only_in_window (st : St) (op : Op) (d' : Dt) (hd' : d' ∈ (step st op).1.dts)
     (ht : d'.trigger ≠ 0) :
-    (∃ d ∈ st.dts, d.id = d'.id ∧ (d.trigger = 0 → d.start ≤ op.now ∧ op.now ≤ d.fin) ∧
+    (∃ d ∈ st.dts, d.id = d'.id ∧
+        (d.trigger = 0 → d.start ≤ op.now ∧ op.now ≤ d.fin ∧ (d.fixed = true → op.now < d.fin)) ∧
         (d.trigger ≠ 0 → d'.trigger = d.trigger)) ∨
-    (∃ p, op = .add p op.now ∧ d'.id = p.id ∧ p.start ≤ op.now ∧ op.now ≤ p.fin) := by
-  rcases step_pred st op (stepRel_RTrig op.now) d' hd' with ⟨d, hd, r⟩ | ⟨p, hop, r⟩
+    (∃ p, op = .add p op.now ∧ d'.id = p.id ∧ p.start ≤ op.now ∧ op.now ≤ p.fin ∧
+        (p.fixed = true → op.now < p.fin)) := by
+  rcases step_pred st op (stepRel_RTrig op.now) (allc_trivial _) (opT_trivial st op) d' hd' with ⟨d, hd, r⟩ | ⟨p, hop, r⟩
   · left
     exact ⟨d, hd, r.1.symm, fun h0 => r.2.2.2.2.2.2 h0 ht, r.2.2.2.2.2.1⟩
   · right
@@ -98,7 +100,7 @@ theorem end_once (ops : List Op) (st : St) (h0 : ∀ d ∈ st.dts, PEnd d) :
       rw [this]
       apply ih
       intro d' hd'
-      rcases step_pred st op (stepRel_REnd op.now) d' hd' with ⟨d, hd, r⟩ | ⟨p, _, r⟩
+      rcases step_pred st op (stepRel_REnd op.now) (allc_trivial _) (opT_trivial st op) d' hd' with ⟨d, hd, r⟩ | ⟨p, _, r⟩
       · have pd := h0 d hd
         cases hr : d.removed with
         | true => rw [r.1 hr]; exact pd
@@ -142,34 +144,100 @@ theorem owner_protected (st : St) (id : Nat) (now : Int) (d : Dt) (hf : findDt s
   · intro ho; simp [removeOp, hf, ho]
   · intro u hu; simp [removeOp, hf, hu]
 
-/-! ### DowntimeStart once — partial, with the counterexamples (F-C05a, F-C05c) -/
+/-! ### DowntimeStart at most once -/
 
-/-- **start_once_partial.**  Every DowntimeStart request of the model is made under `CanBeTriggered`
-    (`noteStartedG`, and `noteTriggered` after the guard of `triggerDt`).  A downtime that has taken
-    effect (`0 < trigger ≤ now`) cannot be triggered — hence not be started — again, *provided that for
-    a fixed downtime `now ≠ end_time`*.  (The lifting of this step lemma to `starts ≤ 1` over whole
-    operation sequences is not proved yet.) -/
-theorem start_once_partial (now : Int) (d : Dt) (h1 : 0 < d.trigger) (h2 : d.trigger ≤ now)
-    (hne : d.fixed = true → now ≠ d.fin) : canBeTriggered now d = false := by
-  unfold canBeTriggered isExpired isInEffect isTriggered
-  cases hf : d.fixed
-  · have h0 : ¬ d.trigger = 0 := by omega
-    by_cases hin : now < d.trigger + d.duration <;> simp [h0, h1, h2, hin]
-  · have hne' := hne hf
-    by_cases ha : d.start ≤ now <;> by_cases hb : now < d.fin <;> simp [h1, h2, ha, hb] <;> omega
+/-- Well-formed operation sequence after time `T`: the clock does not run backwards and every check
+    result carries an execution end in `(0, now]`. -/
+def opOK : Op → Prop
+  | .result _ te now => 0 < te ∧ te ≤ now
+  | _ => True
 
-/-- F-C05a: fixed downtime [1010, 1020), start timer firing at exactly 1020. -/
-def ceStartTwice : List Op :=
-  [.result 0 1000 1000, .add ⟨1, true, 1010, 1020, 0, 0, false⟩ 1005, .pump 1010, .pump 1020]
+instance : DecidablePred opOK := fun op => by cases op <;> unfold opOK <;> infer_instance
 
-/-- **start_once_counterexample.**  `starts ≤ 1` is false of the model (and of the code: replayed by
-    the check, corpus/C05/f_c05a_start_timer_at_end.ops). -/
-theorem start_once_counterexample :
-    ¬ (∀ ops, ∀ d ∈ (run (initSt .service) ops).dts, d.starts ≤ 1) := by
-  intro h
-  have := h ceStartTwice
-  revert this
-  decide
+def WF : Int → List Op → Prop
+  | _, [] => True
+  | T, op :: ops => T ≤ op.now ∧ opOK op ∧ WF op.now ops
+
+instance : ∀ T ops, Decidable (WF T ops)
+  | _, [] => by unfold WF; infer_instance
+  | T, op :: ops => by unfold WF; exact @instDecidableAnd _ _ _ (@instDecidableAnd _ _ _ (instDecidableWF op.now ops))
+
+/-- State invariant behind `start_once` at the time bound `T`. -/
+def SInv (T : Int) (st : St) : Prop :=
+  0 < st.lastStateChange ∧ st.lastStateChange ≤ T ∧ AllC (IStart T) st.dts
+
+theorem sinv_step (T : Int) (st : St) (op : Op) (hi : SInv T st) (hT : T ≤ op.now)
+    (hop : opOK op) :
+    SInv op.now (step st op).1 := by
+  obtain ⟨hl0, hl1, hall⟩ := hi
+  have hall' : AllC (IStart op.now) st.dts := fun d hd => iStart_mono hT (hall d hd)
+  have hopT : OpT st (fun t => 0 < t ∧ t ≤ op.now) (IStart op.now) op := by
+    cases op with
+    | add p now =>
+      simp only [Op.now] at hT
+      refine ⟨?_, ?_⟩
+      · simp only [IStart, newDt, Op.now]; omega
+      · intro hc
+        have hw := canBeTriggered_window hc
+        simp only [newDt, Op.now] at hw ⊢
+        omega
+    | result s te now => exact hop
+    | pump now => trivial
+    | remove id u now => trivial
+  have hdts : AllC (IStart op.now) (step st op).1.dts := by
+    intro d' hd'
+    rcases step_pred st op (stepRel_RStart op.now) hall' hopT d' hd' with ⟨d, hd, r⟩ | ⟨p, hp, r⟩
+    · exact r (hall' d hd)
+    · apply r
+      simp only [IStart, newDt]; omega
+  cases op with
+  | add p now =>
+    refine ⟨?_, ?_, hdts⟩ <;> (simp only [step, addOp]; split <;> simp only [Op.now] at hT ⊢ <;> omega)
+  | result s te now =>
+    have hop' : 0 < te ∧ te ≤ now := hop
+    refine ⟨?_, ?_, hdts⟩ <;>
+      (simp only [step, resultOp]; split <;> simp only [Op.now] at hT ⊢ <;> (try split) <;> omega)
+  | pump now =>
+    refine ⟨?_, ?_, hdts⟩ <;> (simp only [step, pumpOp]; split <;> simp only [Op.now] at hT ⊢ <;> omega)
+  | remove id u now =>
+    refine ⟨?_, ?_, hdts⟩ <;>
+      (simp only [step, removeOp]; split <;> (try split) <;> simp only [Op.now] at hT ⊢ <;> omega)
+
+theorem sinv_run (ops : List Op) : ∀ (T : Int) (st : St), SInv T st → WF T ops →
+    ∃ T', SInv T' (run st ops) := by
+  induction ops with
+  | nil => intro T st hi _; exact ⟨T, hi⟩
+  | cons op ops ih =>
+    intro T st hi hw
+    obtain ⟨h1, h2, h3⟩ := hw
+    have := ih op.now (step st op).1 (sinv_step T st op hi h1 h2) h3
+    simpa [run] using this
+
+/-- **start_once.**  Over every well-formed operation sequence from a never-checked checkable, every
+    downtime causes at most one DowntimeStart notification request. -/
+theorem start_once (k : Kind) (ops : List Op) (hw : WF 990 ops) :
+    ∀ d ∈ (run (initSt k) ops).dts, d.starts ≤ 1 := by
+  have h0 : SInv 990 (initSt k) := by
+    refine ⟨by simp [initSt], by simp [initSt], ?_⟩
+    intro d hd; simp [initSt] at hd
+  obtain ⟨T', _, _, hall⟩ := sinv_run ops 990 (initSt k) h0 hw
+  intro d hd
+  exact (hall d hd).2.2.2.2.1
+
+/-! ### DowntimeStart for every downtime that took effect — partial, with the counterexample (F-C05c) -/
+
+/-- **started_partial.**  Every downtime triggered by its own start (`Downtime::Start` of a fixed downtime
+    inside its window, the start timer) or, being flexible, by `TriggerDowntime`, has requested
+    DowntimeStart; what is excluded — exactly F-C05c — is a *fixed* downtime reached by `TriggerDowntime`
+    (non-OK result, trigger chain). -/
+theorem started_partial (t : Int) (d : Dt) :
+    (startSelf d).starts = (if d.fixed then d.starts + 1 else d.starts + 1) ∧
+    (d.fixed = false → (trigSelf t d).starts = d.starts + 1) ∧
+    (d.fixed = true → (trigSelf t d).starts = d.starts) := by
+  refine ⟨?_, ?_, ?_⟩
+  · cases hf : d.fixed <;> simp [startSelf, trigSelf, noteTriggered, markTriggered, noteStarted, hf]
+  · intro hf; simp [trigSelf, noteTriggered, markTriggered, hf]
+  · intro hf; simp [trigSelf, noteTriggered, markTriggered, hf]
 
 /-- F-C05c: fixed downtime created before its window, non-OK result inside it before the start timer. -/
 def ceNeverStarted : List Op :=
@@ -188,31 +256,78 @@ theorem started_counterexample :
     decide
   · decide
 
-/-! ### Flexible trigger — partial, with the counterexample (F-C05b) -/
+/-! ### Flexible trigger -/
 
-/-- **flexible_trigger_partial.**  `Downtime::Start` triggers a flexible downtime immediately only when
-    the checkable's `state_raw` is not OK; once the checkable *has been checked* (its `state_raw` is the
-    state of the last result) that is exactly "a problem exists".  And a non-OK result calls
-    `TriggerDowntime(execution_end)` on every existing downtime. -/
-theorem flexible_trigger_partial (st : St) (now : Int) (d : Dt) (dts : List Dt) :
-    (isOK st.kind st.state = true → startFlexible st now d dts = dts) ∧
-    (∀ s te, stale st te now = false → (resultOp st s te now).1.state = s) ∧
-    (∀ s te, stale st te now = false → isOK st.kind s = true → (resultOp st s te now).1.dts = st.dts) ∧
-    (∀ s te, stale st te now = false → isOK st.kind s = false →
-        (resultOp st s te now).1.dts = triggerAll now te st.dts) := by
+theorem can_of_fresh_flexible {now : Int} {d : Dt} (hf : d.fixed = false) (h0 : d.trigger = 0)
+    (h1 : d.start ≤ now) (h2 : now ≤ d.fin) : canBeTriggered now d = true := by
+  have h3 : ¬ now < d.start := by omega
+  have h4 : ¬ now > d.fin := by omega
+  have h5 : ¬ d.fin < now := by omega
+  simp [canBeTriggered, isExpired, isInEffect, isTriggered, hf, h0, h3, h4, h5]
+
+/-- **flexible_trigger.**  A flexible downtime takes effect at the first non-OK result, or on an already
+    existing problem, inside `[start, end]`:
+    (a) `Downtime::Start` triggers it at once only if the checkable has a problem, i.e. has a check result
+        whose state is not OK;
+    (b) an OK (or dropped) result triggers nothing;
+    (c) an accepted non-OK result at `now` triggers every existing, not yet triggered flexible downtime
+        with `start ≤ now ≤ end`, with the result's execution end as trigger time (ids are unique among
+        the checkable's downtimes). -/
+theorem flexible_trigger (st : St) (now : Int) :
+    (∀ d dts, st.problem = false → startFlexible st now d dts = dts) ∧
+    (st.problem = true ↔ (st.lastExec.isSome = true ∧ isOK st.kind st.state = false)) ∧
+    (∀ s te, isOK st.kind s = true → (resultOp st s te now).1.dts = st.dts) ∧
+    (∀ s te, stale st te now = false → isOK st.kind s = false → te ≠ 0 →
+      ∀ d ∈ st.dts, (∀ y ∈ st.dts, y.id = d.id → y = d) →
+        d.removed = false → d.fixed = false → d.trigger = 0 → d.start ≤ now → now ≤ d.fin →
+        ∃ d' ∈ (resultOp st s te now).1.dts, d'.id = d.id ∧ d'.removed = false ∧ d'.trigger = te) := by
   refine ⟨?_, ?_, ?_, ?_⟩
-  · intro h; simp [startFlexible, h]
-  · intro s te hs; simp [resultOp, hs]
-  · intro s te hs hok; simp [resultOp, hs, hok]
-  · intro s te hs hok; simp [resultOp, hs, hok]
-
-/-- **flexible_trigger_counterexample** (F-C05b).  On a never-checked checkable (no result at all, hence
-    no problem) a flexible downtime added inside its window is triggered at once and requests
-    DowntimeStart. -/
-theorem flexible_trigger_counterexample :
-    ∃ d ∈ (run (initSt .service) [.add ⟨1, false, 1000, 1020, 5, 0, false⟩ 1001]).dts,
-      d.fixed = false ∧ d.trigger = 1001 ∧ d.starts = 1 := by
-  decide
+  · intro d dts h; simp [startFlexible, h]
+  · simp [St.problem]
+  · intro s te hok
+    unfold resultOp
+    split <;> simp [hok]
+  · intro s te hs hok hte d hd huniq hr hf h0 h1 h2
+    have hcan := can_of_fresh_flexible hf h0 h1 h2
+    have tr := trigRel_RC now te
+    have htk : (fun t' => t' = te ∧ te ≠ 0) te := ⟨rfl, hte⟩
+    have hdts : (resultOp st s te now).1.dts = triggerAll now te st.dts := by
+      simp [resultOp, hs, hok]
+    rw [hdts]
+    unfold triggerAll
+    have hmem : d.id ∈ liveIds st.dts := by
+      unfold liveIds
+      exact List.mem_map.mpr ⟨d, List.mem_filter.mpr ⟨hd, by simp [hr]⟩, rfl⟩
+    obtain ⟨pre, post, hsplit⟩ := List.append_of_mem hmem
+    rw [hsplit, List.foldl_append, List.foldl_cons]
+    have hg : ∀ (acc : List Dt) (i : Nat), AllC (fun _ => True) acc →
+        Both (RC te) acc (triggerDt (st.dts.length + 1) now te i acc) :=
+      fun acc i hacc => both_triggerDt tr _ te htk i acc hacc
+    have h1 := both_foldl tr.refl tr.trans tr.ctx _ hg pre st.dts (allc_trivial _)
+    obtain ⟨x1, hx1, r1⟩ := h1.1 d hd
+    have hl1 : live d.id x1 = true := rc_live r1 (by simp [live, hr])
+    obtain ⟨x2, hx2, hd2⟩ := triggerDt_done st.dts.length now te hte d.id _ x1 hx1 hl1
+    -- x2 descends from d (unique id)
+    have h12 := both_trans tr.trans h1 (hg (pre.foldl (fun acc i => triggerDt (st.dts.length + 1) now te i acc) st.dts) d.id (allc_trivial _))
+    have h3 := both_foldl tr.refl tr.trans tr.ctx _ hg post
+      (triggerDt (st.dts.length + 1) now te d.id (pre.foldl (fun acc i => triggerDt (st.dts.length + 1) now te i acc) st.dts))
+      (allc_trivial _)
+    obtain ⟨x3, hx3, r3⟩ := h3.1 x2 hx2
+    obtain ⟨y, hy, ry⟩ := h12.2 x2 hx2
+    have hyd : y = d := huniq y hy (by rw [← ry.1]; exact hd2.1)
+    subst hyd
+    have ht2 : x2.trigger = te := by
+      rcases rc_can now ry with ⟨_, h⟩ | h
+      · exact h
+      · rcases ry.2.2.2.2.2.2.2 with h7 | ⟨_, h7⟩
+        · rcases hd2.2.2 with h3 | h3
+          · rw [h7] at h3; exact absurd h0 h3
+          · rw [h, hcan] at h3; exact absurd h3 (by simp)
+        · exact h7
+    refine ⟨x3, hx3, by rw [r3.1]; exact hd2.1, by rw [r3.2.1]; exact hd2.2.1, ?_⟩
+    rcases r3.2.2.2.2.2.2.2 with h7 | ⟨h7, _⟩
+    · rw [h7]; exact ht2
+    · rw [ht2] at h7; exact absurd h7 hte
 
 /-! ### Non-vacuity -/
 
@@ -238,9 +353,15 @@ example : (removeOp (run (initSt .host) exampleOps) 2 true 1011).2 = 2 := by dec
 example : ((run (initSt .host) (exampleOps ++ [.pump 1030])).dts.map (fun d => (d.removed, d.ends))) =
     [(true, 1), (true, 1)] := by decide
 
-/-- `start_once_partial`: a triggered fixed downtime inside its window. -/
-example : canBeTriggered 1015 { (newDt ⟨1, true, 1010, 1020, 0, 0, false⟩ 1000) with trigger := 1010 } = false := by
-  decide
+/-- `start_once`: the chained scenario is well-formed, and at the (formerly failing) instant `now = end` the
+    start timer no longer starts the fixed downtime again. -/
+example : WF 990 (exampleOps ++ [.pump 1020]) := by decide
+
+example : ((run (initSt .host) (exampleOps ++ [.pump 1020])).dts.map (fun d => d.starts)) = [1, 1] := by decide
+
+/-- `flexible_trigger` (c): an untriggered flexible downtime inside its window exists before a non-OK result. -/
+example : ∃ d ∈ (run (initSt .service) [.result 0 1000 1000, .add ⟨1, false, 1000, 1020, 5, 0, false⟩ 1001]).dts,
+    d.fixed = false ∧ d.trigger = 0 ∧ d.removed = false ∧ d.start ≤ 1002 ∧ (1002 : Int) ≤ d.fin := by decide
 
 /-- The specification is not vacuous: it rejects a trace whose depth is wrong … -/
 example : specTrace (specInit .service)
